@@ -1,6 +1,6 @@
 //@ tu: libxcm/tp/tcp/tconnect.c
 //@ enforce: track_process_connecting
-//@ replace: timer_mgr_has_expired timer_mgr_ack ut_established track_abort_connect track_connect_next
+//@ replace: timer_mgr_has_expired timer_mgr_ack ut_established track_abort_connect track_connect_next xpoll_fd_reg_del_if_valid
 //@ flags: --object-bits 10
 //@ props: C13 C08 C04
 //@ expect: postcondition>=9 canary=5
